@@ -36,8 +36,10 @@ SAMPLES = {
     'str': ["''", "'a'", "'abc'", "'%s'", "'%d items'"],
     'list-int': ['[]', '[1]', '[1, 2, 3]'],
     'list-str': ["['a']", "['a', 'b']"],
+    'list-float': ['[1.0]', '[2.5, 1.0]'],
     'tuple-int': ['()', '(1,)', '(1, 2)'],
     'tuple-str': ["('a',)", "('a', 'b')"],
+    'tuple-float': ['(1.0,)', '(2.0, 0.5)'],
     'bool': ['True', 'False'],
 }
 
@@ -73,7 +75,10 @@ def analyse(code):
     return tifa_analysis()
 
 
-def check_cell(ctx, op, fn, lsrc, rsrc, lk, rk):
+_TURN = [0]
+
+
+def check_cell(ctx, op, fn, lsrc, rsrc, lk, rk, prelude=None):
     from pedal.types.new_types import Type, is_subtype
     from pedal.types.normalize import get_pedal_type_from_value
     lv, rv = eval(lsrc), eval(rsrc)
@@ -82,6 +87,17 @@ def check_cell(ctx, op, fn, lsrc, rsrc, lk, rk):
         return
     code = 'a = %s\nb = %s\nc = a %s b\n' % (lsrc, rsrc, op)
     case = {'code': code}
+    _TURN[0] += 1
+    if _TURN[0] % 2 == 0 and prelude is None:
+        prelude = ('left', 'right', 'both')[(_TURN[0] // 2) % 3]
+    if prelude:
+        # a variable held another value of its kind before (an empty container, a zero): what counts is what it holds now
+        first = {'int': '0', 'float': '0.0', 'str': "''", 'list': '[]', 'tuple': '()'}
+        pre = ('a = %s\nprint(a)\n' % first[tkind(lk)] if prelude in ('left', 'both') else '') + \
+              ('b = %s\nprint(b)\n' % first[tkind(rk)] if prelude in ('right', 'both') else '')
+        code = pre + code
+        case = {'code': code, 'prelude': prelude}
+        ctx.count('cells_with_earlier_assignments')
     cell = '%s|%s|%s' % (op, tkind(lk), tkind(rk))
     try:
         result = fn(lv, rv)
@@ -372,7 +388,10 @@ def replay(ctx, case):
         check_tree(ctx, code[4:].strip())
         return
     lines = code.strip().split('\n')
+    if case.get('prelude'):
+        lines = lines[-3:]
     l, r = lines[0][4:], lines[1][4:]
     op = lines[2][len('c = a '):-2].strip()
     fn = dict(BINOPS + CMPOPS)[op]
-    check_cell(ctx, op, fn, l, r, 'x', 'x')
+    kinds = {int: 'int', float: 'float', str: 'str', list: 'list', tuple: 'tuple'}
+    check_cell(ctx, op, fn, l, r, kinds.get(type(eval(l)), 'int'), kinds.get(type(eval(r)), 'int'), prelude=case.get('prelude') or False)
